@@ -36,6 +36,7 @@ RULE += (' Also: any_iter over objects offering both iteration protocols.')
 RULE += (' Also: generator-based coroutines as awaitables of await_each; non-awaitable elements (TypeError when reached).')
 RULE += (' Also: any_iter over sources that are falsy although they provide items.')
 RULE += (' Also: await_each over a list extended by the consumer while it is iterated.')
+RULE += (' Also: await_each over a lazy input that keeps none of its awaitables (addresses are reused).')
 ASSUMPTIONS = ["direct specification oracle (no stdlib twin exists for these helpers)"]
 EXHAUSTIVE = {"quick": True, "thorough": True}
 MAX_SHARDS = 8
@@ -62,6 +63,7 @@ def cases(tier, seed, shard, nshards):
                         yield {"kind": "await_each", "n": n, "steps": steps, "susp": susp, "cont": cont}
                         if cont == "list":
                             yield {"kind": "await_each", "n": n, "steps": steps, "susp": susp, "cont": "worklist"}
+                            yield {"kind": "await_each", "n": n, "steps": steps, "susp": susp, "cont": "fresh"}
                         for aw_kind in ("legacy", "mixed", "bad"):
                             yield {"kind": "await_each", "n": n, "steps": steps, "susp": susp, "cont": cont, "aw_kind": aw_kind}
     for n in range(0, 6):
@@ -546,6 +548,18 @@ def run_await_each(case, stats):
 
     arg = coros if case["cont"] == "list" else feed()
     later = []
+    if case["cont"] == "fresh":
+        # a LAZY input that creates each awaitable when it is asked for and keeps none of them (a generator expression
+        # over a work list): objects come and go, addresses are reused - an awaitable is known by nothing but itself
+        def feed_fresh():
+            for i in range(n):
+                drawn.append(i)
+                yield (legacy(i) if kind == "legacy" else aw(i))
+        for c in coros:
+            if hasattr(c, "close"):
+                c.close()
+        coros = []
+        arg = feed_fresh()
     if case["cont"] == "worklist":
         # a list used as a WORK QUEUE: the consumer appends follow-up awaitables while it iterates (``for x in work``
         # reaches them): the caller's list is iterated live, not a snapshot of it
@@ -591,7 +605,7 @@ def run_await_each(case, stats):
         viols.append({"key": "await_each/items", "msg": f"await_each {case}: wrong items"})
     # what the consumer never asked for still belongs to the caller: not drawn from its iterator, not closed
     import inspect
-    left = coros[min(case["steps"], n):]
+    left = coros[min(case["steps"], n):] if case["cont"] != "fresh" else []
     def untouched(c):
         if inspect.iscoroutine(c):
             return inspect.getcoroutinestate(c) == inspect.CORO_CREATED
